@@ -169,6 +169,11 @@ impl System for Sys {
                 let t = self.tmpls[*i].clone();
                 self.seq += 1;
                 let mut act = Activation::new(t.rule.to_string(), t.salience).with_no_loop(t.no_loop).with_agenda_group(t.group.to_string()).with_lock_on_active(t.lock);
+                // some templates describe rules with more conditions: under the default (salience) strategy that must not
+                // change the order
+                if matches!(t.rule, "R2" | "R4" | "C1" | "C4" | "C9") {
+                    act = act.with_condition_count(3);
+                }
                 if let Some(g) = t.act_group {
                     act = act.with_activation_group(g.to_string());
                 }
@@ -449,6 +454,93 @@ fn describe(k: usize) -> serde_json::Value {
     json!({"sub": "termination", "case": k, "engine": ENGINES[k / ns], "rules": rules})
 }
 
+/// engine-level firing order for larger rule sets: n no-loop rules that all match, priorities with ties, added in
+/// the listed order: fire_all fires them in descending priority, in the order they were added among equals
+fn order_case(engine: usize, n: usize, pat: usize) -> (Vec<String>, Vec<String>) {
+    let prio = |i: usize| -> i32 {
+        match pat {
+            0 => 0,
+            1 => (i % 2) as i32,
+            2 => if i + 1 == n { 10 } else { 0 },
+            3 => (i % 3) as i32 - 1,
+            4 => if i < n / 2 { 0 } else { 5 },
+            _ => ((i * 7 + 3) % 5) as i32 - 2,
+        }
+    };
+    let mut want: Vec<(i32, usize)> = (0..n).map(|i| (prio(i), i)).collect();
+    want.sort_by(|a, b| b.0.cmp(&a.0).then(a.1.cmp(&b.1)));
+    let want: Vec<String> = want.iter().map(|(_, i)| format!("r{:03}", i)).collect();
+    let got = if engine == 0 {
+        let mut e = IncrementalEngine::new();
+        for i in 0..n {
+            e.add_rule(TypedReteUlRule { name: format!("r{:03}", i), node: node_for(Kind::AlwaysTrue, "T.v"), priority: prio(i), no_loop: true, action: typed_action(Kind::AlwaysTrue, "T.v") }, vec!["T".to_string()]);
+        }
+        let mut d = TypedFacts::new();
+        d.set("v", 0i64);
+        e.insert("T".to_string(), d);
+        e.fire_all()
+    } else {
+        let mut e = TypedReteUlEngine::new();
+        for i in 0..n {
+            let act = typed_action(Kind::AlwaysTrue, "v");
+            e.add_rule_with_action(format!("r{:03}", i), node_for(Kind::AlwaysTrue, "v"), prio(i), true, move |f, r| act(f, r));
+        }
+        e.set_fact("v", 0i64);
+        e.fire_all()
+    };
+    (got, want)
+}
+
+fn run_order(opts: &Opts) -> Report {
+    let t0 = Instant::now();
+    let mut rep = Report::new("engine_firing_order");
+    let nmax = if opts.tier == Tier::Quick { 48 } else { 128 };
+    let mut distinct = 0u64;
+    for engine in 0..2usize {
+        for n in 1..=nmax {
+            for pat in 0..6usize {
+                rep.count("evaluations", 1);
+                rep.letter(ENGINES[engine]);
+                let case = json!({"sub": "engine_firing_order", "engine": ENGINES[engine], "engine_idx": engine, "n_rules": n, "priority_pattern": pat});
+                match std::panic::catch_unwind(|| order_case(engine, n, pat)) {
+                    Err(_) => rep.violation(Violation { class: "fire_all_panicked".into(), detail: crate::explore::take_panic(), tags: vec![], case }),
+                    Ok((got, want)) => {
+                        // IncrementalEngine creates its activations in propagation order (a hash map decides which rule
+                        // comes first), so among equal priorities only "every rule once, priorities never increasing"
+                        // is claimed there; the typed engine's agenda is the rule list itself
+                        let (got, want) = if engine == 0 {
+                            let mut g2 = got.clone();
+                            let mut w2 = want.clone();
+                            // negated priority of a rule, recomputed from its name
+                            let class_of = |name: &String| -> i64 {
+                                let i: usize = name[1..].parse().unwrap_or(0);
+                                -(match pat { 0 => 0, 1 => (i % 2) as i64, 2 => if i + 1 == n { 10 } else { 0 }, 3 => (i % 3) as i64 - 1, 4 => if i < n / 2 { 0 } else { 5 }, _ => ((i * 7 + 3) % 5) as i64 - 2 })
+                            };
+                            let sorted_by_class = got.windows(2).all(|w| class_of(&w[0]) <= class_of(&w[1]));
+                            g2.sort();
+                            w2.sort();
+                            if sorted_by_class && g2 == w2 { (want.clone(), want) } else { (got, want) }
+                        } else {
+                            (got, want)
+                        };
+                        if got != want {
+                            let k = got.iter().zip(want.iter()).position(|(a, b)| a != b).unwrap_or(got.len().min(want.len()));
+                            rep.violation(Violation { class: "firing_order_differs".into(), detail: format!("{} with {} matching no-loop rules (priority pattern {}): fired {:?}... expected {:?}... (first difference at position {})", ENGINES[engine], n, pat, got.iter().take(k + 2).collect::<Vec<_>>(), want.iter().take(k + 2).collect::<Vec<_>>(), k), tags: vec![if n > 20 { "more_than_20_rules".to_string() } else { "at_most_20_rules".to_string() }], case });
+                        } else {
+                            distinct += 1;
+                        }
+                    }
+                }
+            }
+        }
+    }
+    rep.count("nontrivial", distinct);
+    rep.sample(json!({"engine": "TypedReteUlEngine", "n_rules": 21, "priority_pattern": 1}));
+    rep.bound = format!("IncrementalEngine and TypedReteUlEngine x every rule count 1..={} x 6 priority patterns with ties: all rules match, fire_all fires every rule once in descending priority; among equals in insertion order (TypedReteUlEngine) / in any order (IncrementalEngine, whose activation order is decided by a hash map)", nmax);
+    rep.wall_s = t0.elapsed().as_secs_f64();
+    rep
+}
+
 fn run_termination(opts: &Opts) -> Report {
     let t0 = Instant::now();
     let mut rep = Report::new("termination");
@@ -517,6 +609,9 @@ pub fn run(opts: &Opts) -> Vec<Report> {
         r.bound = format!("all histories of length <= {} over add_activation({} templates: salience 0/5, groups MAIN/G, no-loop, activation group X, lock-on-active{}) / get_next_activation / mark_rule_fired / set_focus / reset_fired_flags / clear; creation instants strictly increasing", depth, if nt >= 100 { nt - 100 } else { nt }, if nt >= 100 { ", in combination on one activation" } else { "" });
         out.push(r);
     }
+    if crate::props::wants(opts, "engine_firing_order") {
+        out.push(run_order(opts));
+    }
     if crate::props::wants(opts, "termination") {
         out.push(run_termination(opts));
     }
@@ -524,6 +619,12 @@ pub fn run(opts: &Opts) -> Vec<Report> {
 }
 
 pub fn replay(case: &serde_json::Value) -> crate::props::ReplayResult {
+    if case["sub"].as_str() == Some("engine_firing_order") {
+        let g = |k: &str| case[k].as_u64().unwrap_or(0) as usize;
+        let hist = vec![case.to_string()];
+        let (got, want) = order_case(g("engine_idx"), g("n_rules"), g("priority_pattern"));
+        return if got == want { Ok(hist) } else { Err((hist, "firing_order_differs".into(), format!("fired {:?}, expected {:?}", got, want))) };
+    }
     if case["sub"].as_str() == Some("termination") {
         let k = case["case"].as_u64().unwrap_or(0) as usize;
         let res = isolate::run_batch_from("C07", "term", k, k + 1, Duration::from_secs(20), 1, &[]);
